@@ -88,8 +88,7 @@ def run_case(case):
     import websocket
 
     obs = Obs()
-    sched = simkit.Sched(choices=case.get("choices", []), preempt=case.get("preempt"), horizon=400.0, repo=REPO, max_steps=8_000_000 if case.get("opcodes") else 800000,
-                         opcodes=bool(case.get("opcodes")))
+    sched = simkit.Sched(choices=case.get("choices", []), preempt=case.get("preempt"), horizon=400.0, repo=REPO, max_steps=800000)
     net = simkit.SimNet(sched)
     runs = case["runs"]
     attempts, expect = [], []
@@ -357,10 +356,6 @@ def jobs(tier, seed):
     for fi in range(len(FIXED)):
         for sh in range(of):
             out.append({"name": f"preempt-{fi}-{sh}", "kind": "preempt", "fixed": fi, "shard": sh, "of": of, "stride": 5 if tier == "quick" else 1})
-    if tier != "quick":
-        for fi in (0, 1):  # bytecode-level sweeps of the two concurrent-close scenarios
-            for sh in range(16):
-                out.append({"name": f"preempt-op-{fi}-{sh}", "kind": "preempt", "fixed": fi, "shard": sh, "of": 16, "stride": 1, "opcodes": True})
     return out
 
 
@@ -369,8 +364,6 @@ def run_job(job, coll):
         hyp_run(coll, cases(), run_case, job["seed"], job["n"])
     else:
         base = FIXED[job["fixed"]]
-        if job.get("opcodes"):
-            base = dict(base, opcodes=True)
         n_steps = _count_steps(base)
         pts = list(range(1, n_steps + 1, job["stride"]))
         for idx, p in enumerate(pts):
